@@ -77,7 +77,7 @@ func c19(c *Ctx) {
 	c.RunEvalCases()
 
 	// paths x marks x key states
-	names := []string{"a", "b", "c", "d", "e"}
+	names := []string{"a", "b", "c", "d", "e", "f"}
 	for n := 1; n <= maxKeys; n++ {
 		states := 1
 		for i := 0; i < n; i++ {
